@@ -91,6 +91,9 @@ class C02(RegConcCheck):
 class C03(RegConcCheck):
     pid = "C03"
     prop_module = "SigHook.Props.C03"
+    # the channel's `send` is what the origin-carrying exfiltrator runs inside a delivery: never panics
+    # (C08), returns within `ccost` own steps with everybody else paused (C08b)
+    extra_modules = ("SigHook.Props.C08", "SigHook.Props.C08b")
 
     def replay(self, payload):
         if payload.get("flags"):
@@ -108,6 +111,11 @@ class C03(RegConcCheck):
                 pid = "C03"
                 profile = "handler"
             return It().replay(payload)
+        if payload.get("channel"):
+            from . import c06
+            class Ch(c06.ChannelCheck):
+                pid = "C03"
+            return Ch().replay(payload)
         return super().replay(payload)
 
     def correspond(self, tier, seed, rng):
@@ -124,6 +132,21 @@ class C03(RegConcCheck):
         res["distribution"]["iterator_scenarios"] = ires["evaluations"]
         res["distribution"]["iterator_wakes_on_full_pipe"] = ires["distribution"].get("= -1", 0)
         res["rule"] += "; plus iterator scenarios (the instance's real action: slot store + self-pipe wake, half of them with the pipe filled to capacity) with the same per-step monitor and a would-block detector on every write/send"
+        # the channel `send` that the origin-carrying exfiltrator runs inside the delivery: scheduled scenarios
+        # (sends nested on threads that are mid-send/mid-recv, spurious failures) against the model, with the
+        # no-panic / step-bound monitors restricted to `send`
+        from . import c06
+        class Ch(c06.ChannelCheck):
+            pid = "C03"
+        cres = Ch().correspond("quick" if tier == "quick" else "thorough", seed, rng)
+        for f in cres["failures"]:
+            f.setdefault("payload", {})["channel"] = True
+        res["failures"] += cres["failures"]
+        res["evaluations"] += cres["evaluations"]
+        res["distinct_nontrivial"] += cres["distinct_nontrivial"]
+        res["distribution"]["channel_scenarios"] = cres["traces_validated_against_impl"]
+        res["distribution"]["channel_nested_sends"] = cres["distribution"].get("nested_sends", 0)
+        res["rule"] += "; plus channel scenarios (the `send` an origin-carrying delivery runs, nested on threads that are mid-send/mid-recv) compared with the channel model step by step, with the no-panic and own-step-bound monitors on every send"
         # the other built-in wake action: `low_level::pipe` on pipes, stream and datagram sockets, empty
         # and full, left blocking by the caller (forked probes with the system calls logged)
         from . import c13
